@@ -209,6 +209,12 @@ def build(hist):
                     b.w.teardown()
                     return None, None, 'disabled'
                 t = min(ds)
+                if VARIANT[0] == 'sleepy' and (a.w.sched.due_count(t) > 1 or b.w.loop.due_count(t) > 1):
+                    # two suspended handlers wake at the same instant: which continues first is a scheduling choice inside
+                    # each server, not an observable difference between them - the history is not extended or compared
+                    a.w.teardown()
+                    b.w.teardown()
+                    return None, None, 'disabled'
                 for s in (a, b):
                     s.w.advance_to(t)
                     s.w.run()
@@ -318,7 +324,7 @@ def run(ctx):
         'rule': 'breadth-first search over %d actions %r to depth %d, the same history applied in lock step to Server and AsyncServer '
                 'under the default schedule with a shared clock; de-duplication on the pair of canonical digests (done per work '
                 'partition: histories are partitioned by their first two actions); a diverged history is reported and not extended; a second '
-                'pass one level shallower runs with handlers that take virtual time (disconnect 0.25 s, message 0.125 s). '
+                'pass one level shallower runs with handlers that take virtual time (disconnect 0.25 s, message 0.125 s; histories in which two suspended handlers wake at the same instant are pruned - their order is a scheduling choice inside each server). '
                 'states = distinct digest pairs; transitions = histories executed on both implementations.' % (len(ACTIONS), ACTIONS, depth),
         'exhaustive': True, 'bound_completed': depth, 'divergences_total': nv,
     }
